@@ -184,14 +184,12 @@ impl SocketRecv for RepSocket {
                         if m.len() < 2 {
                             return Err(ZmqError::Other("Invalid message format"));
                         }
-                        let mut at = 1;
-                        for (index, frame) in m.iter().enumerate() {
-                            if frame.is_empty() {
-                                // Include delimiter in envelope.
-                                at = index + 1;
-                                break;
-                            }
-                        }
+                        // Include delimiter in envelope.
+                        let at = match m.iter().position(|frame| frame.is_empty()) {
+                            Some(delimiter) => delimiter + 1,
+                            // No delimiter: there is no telling the envelope from the request.
+                            None => return Err(ZmqError::Other("Invalid message format")),
+                        };
                         if at >= m.len() {
                             // Nothing follows the delimiter: there is no request to hand over.
                             return Err(ZmqError::Other("Invalid message format"));
